@@ -31,18 +31,23 @@ func cmdReplay(args []string) {
 	worlds := map[string]*gq.World{}
 	for _, s := range strings.Split(*strat, ",") {
 		for lm := gq.ListMode(0); lm < 3; lm++ {
-			var w *gq.World
-			var err error
 			if s == "refl" {
-				// list mode index doubles as the binding mode: by name / RegisterType / @go
-				w, err = gq.NewReflWorld(&u, lm, gq.Binding(lm))
-			} else {
-				w, err = gq.NewWorld(&u, gq.Strategy(s), lm)
+				continue
 			}
+			w, err := gq.NewWorld(&u, gq.Strategy(s), lm)
 			if err != nil {
 				vh.Die("%s", err)
 			}
 			worlds[s+string(rune('0'+int(lm)))] = w
+		}
+		if s == "refl" { // one world per binding mode: by name / RegisterType / three spellings of @go
+			for b := gq.Binding(0); b < gq.NumBindings; b++ {
+				w, err := gq.NewReflWorld(&u, gq.ListMode(int(b)%3), b)
+				if err != nil {
+					vh.Die("%s", err)
+				}
+				worlds["refl"+string(rune('0'+int(b)))] = w
+			}
 		}
 	}
 	for i := range cases {
@@ -92,6 +97,9 @@ func cmdReplay(args []string) {
 					continue
 				}
 				lm = int(gq.ListResolver)
+			}
+			if s == "refl" {
+				lm = (i + si) % int(gq.NumBindings)
 			}
 			w := worlds[s+string(rune('0'+lm))]
 			act := w.Run(c, lo)
@@ -178,7 +186,7 @@ func cmdRecord(args []string) {
 				var w *gq.World
 				var err error
 				if s == "refl" {
-					w, err = gq.NewReflWorld(u, lm, gq.Binding(lm))
+					w, err = gq.NewReflWorld(u, lm, gq.Binding((int(lm)+ui+int(vh.Seed()))%int(gq.NumBindings)))
 				} else {
 					w, err = gq.NewWorld(u, gq.Strategy(s), lm)
 				}
